@@ -145,6 +145,8 @@ class Finder(importlib.abc.MetaPathFinder, importlib.abc.Loader):
             d['struct'] = core.sx_struct
         if 'BytesIO' in d:
             d['BytesIO'] = core.sx_BytesIO
+        if isinstance(d.get('codecs'), types.ModuleType):
+            d['codecs'] = core.sx_codecs
         # `from crysp.bits import *` re-exports struct: keep the shim everywhere
         for k in ('isinstance', 'int', 'bytes'):
             d[k] = core.SHIMS[k]
